@@ -37,8 +37,11 @@ impl<T: ArrivalBound + Clone + 'static> ArrivalBound for Propagated<T> {
     }
 
     fn steps_iter<'a>(&'a self) -> Box<dyn Iterator<Item = Duration> + 'a> {
+        // an interval of length one is a step only if anything can arrive at all
+        let first = Duration::from(1);
+        let any_arrivals = self.number_arrivals(first) > 0;
         Box::new(
-            iter::once(Duration::from(1)).chain(
+            iter::once(first).filter(move |_| any_arrivals).chain(
                 // shift the steps of the input event model earlier by the jitter amount
                 self.input_event_model
                     .steps_iter()
